@@ -1409,16 +1409,23 @@ class Frame:
 
     def st_Assert(self, st):
         try:
-            v = self.ev(st.test)
+            ar0 = getattr(self.I, "assert_ranges", False)
+            prev_ctx = getattr(self, "assert_ctx", None)
+            self.assert_ctx = "explore" if (ar0 and (ar0 is True or ar0(self.fi, st))) else "assume"
+            try:
+                v = self.ev(st.test)
+            finally:
+                self.assert_ctx = prev_ctx
             if isinstance(v, (AOpq,)):
                 self.I.st.assumed.append(f"assert at {self.fi.module.relpath}:{st.lineno}")
                 return
-            if getattr(self.I, "assert_ranges", False) and isinstance(v, ACond) and v.kind.startswith("ord:") and len(v.parts) == 2 \
+            ar = getattr(self.I, "assert_ranges", False)
+            if ar and (ar is True or ar(self.fi, st)) and isinstance(v, ACond) and v.kind.startswith("ord:") and len(v.parts) == 2 \
                     and isinstance(v.parts[0], AInt) and isinstance(v.parts[1], int) and self._independent_bits(v.parts[0]):
                 # a range assertion over a value whose free bits are independent inputs: the bounds test in compare() was exact, so
                 # both outcomes are feasible — the failing side is explored (the rule decides whether rejecting that value is allowed)
                 if not self.I.decide(v, f"assert:{st.lineno}"):
-                    raise PathRaise("AssertionError", f"{self.fi.module.relpath}:{st.lineno}")
+                    raise PathRaise("AssertionError", f"{self.fi.module.relpath}:{st.lineno} [in-range value refused]")
                 return
             if isinstance(v, (AInt, ACond)) and not (isinstance(v, AInt) and v.ext is None and all(isinstance(b, F) and b.is_const for b in self.I.simp_bits(v.bits))):
                 # an undecided assert is assumed to hold (the failing side is a documented error exit)
@@ -1429,7 +1436,9 @@ class Frame:
             self.I.st.assumed.append(f"assert at {self.fi.module.relpath}:{st.lineno}")
             return
         if not ok:
-            raise PathRaise("AssertionError", f"{self.fi.module.relpath}:{st.lineno}")
+            ar = getattr(self.I, "assert_ranges", False)
+            tag = " [in-range value refused]" if ar and (ar is True or ar(self.fi, st)) else ""
+            raise PathRaise("AssertionError", f"{self.fi.module.relpath}:{st.lineno}{tag}")
 
     def _independent_bits(self, x) -> bool:
         """every non-constant bit of the abstract int is a distinct single input atom (so the value ranges over a full cube)"""
@@ -1782,6 +1791,9 @@ class Frame:
             return AInt([self.to_bit(v)], isbool=True)
         if isinstance(v, AEnum):
             raise Abort("enum used as int")
+        if v is None or isinstance(v, (tuple, list, dict, set, str, bytes, float)):
+            # a constant of a type that no integer operation of the library accepts (int2ba, to_bytes, shifts ...): python raises
+            raise PathRaise("TypeError", f"{type(v).__name__} where an integer is required at {self.fi.module.relpath}")
         raise Abort(f"{type(v).__name__} used as int")
 
     def as_bytes_val(self, v) -> ABits:
@@ -2035,6 +2047,15 @@ class Frame:
             v = M.compare(self, op, l, r, n)
             if len(n.ops) == 1:
                 return v
+            mode = getattr(self, "assert_ctx", None)
+            if mode is not None and isinstance(v, ACond) and v.kind.startswith("ord:"):
+                # a link of a chained comparison inside an `assert` that the bounds cannot decide: a precondition like the
+                # single-comparison form (assumed), unless the rule asked for range assertions of this field to be explored
+                ex = mode == "explore" and len(v.parts) == 2 and isinstance(v.parts[0], AInt) and isinstance(v.parts[1], int) and self._independent_bits(v.parts[0])
+                if not ex:
+                    self.I.st.assumed.append(f"assert (chained comparison) at {self.fi.module.relpath}:{n.lineno}")
+                    l = r
+                    continue
             if not self.I.decide(v, f"cmp:{n.lineno}"):
                 return False
             l = r
